@@ -14,9 +14,9 @@ CLAIMED = {
         "text": "Proof of the sequential obligations under an assumed clock model: in listen()'s accept loop a timeout error is returned only when the ghost idle clock has "
                 "reached idle_timeout*1000 ms since the last accepted connection AND the pool counter just read is 0 (nothing queued or being served); with a stop flag the "
                 "flag is polled every 100 ms and Ok(()) is returned only from such a poll; ThreadPool::drop sends one Terminate per worker behind everything queued and joins "
-                "every worker; the worker loop leaves only on Terminate.",
+                "every worker; the worker loop leaves only on Terminate; Listener::drop calls fs::remove_file on the path of a socket the server bound itself.",
         "note": NOTE_COMMON + "clock model: Listener::accept(t) returns Err(Timeout) only after >= t ms without a connection (assumed; select() and real time are outside the verifier); "
-                "`pool` is dropped on every return path by Rust's scope rules (not modelled by Verus); FIFO channel and join semantics are stand-ins; socket unlinking is not yet covered.",
+                "`pool` and `listener` are dropped on every return path by Rust's scope rules (not modelled by Verus); FIFO channel, join and fs::remove_file semantics are stand-ins.",
         "ref": "5-C15",
     },
     "C17": {
